@@ -157,3 +157,26 @@ Proof.
   - reflexivity.
   - eexists. split; [reflexivity|]. repeat split; bits; bsimp; reflexivity.
 Qed.
+
+(* ---- WcMatch._parse_flags / _compile_wildcard (translated): forced flags ---- *)
+Lemma wcmatch_forced_flags P f : plat_windows P = false ->
+  let '(fl, follow, hidden, recursive, dirp, filep, mb) := wcmatch_parse_flags P f in
+  Z.testbit fl 3 = true /\ Z.testbit fl 6 = true /\ Z.testbit fl 15 = true /\ Z.testbit fl 12 = true /\
+  Z.testbit fl 13 = false /\ Z.testbit fl 16 = false /\
+  follow = Z.testbit f 26 /\ hidden = Z.testbit f 27 /\ recursive = Z.testbit f 28 /\
+  dirp = Z.testbit f 24 /\ filep = Z.testbit f 25 /\ mb = Z.testbit f 13.
+Proof.
+  intros HP. unfold wcmatch_parse_flags. rewrite HP.
+  repeat split; bits; bsimp; try reflexivity;
+    rewrite ?(cond_bit _ 26), ?(cond_bit _ 27), ?(cond_bit _ 28), ?(cond_bit _ 24), ?(cond_bit _ 25), ?(cond_bit _ 13) by lia;
+    bits; bsimp; try reflexivity; try btauto.
+Qed.
+
+Lemma wcmatch_path_flags sflags mb : 
+  Z.testbit (wcmatch_wildcard_flags sflags mb true) 5 = true /\
+  Z.testbit (wcmatch_wildcard_flags sflags mb true) 33 = true /\
+  Z.testbit (wcmatch_wildcard_flags sflags mb true) 13 = (Z.testbit sflags 13 || mb) /\
+  wcmatch_wildcard_flags sflags mb false = sflags.
+Proof.
+  unfold wcmatch_wildcard_flags. destruct mb; repeat split; bits; bsimp; reflexivity.
+Qed.
